@@ -4,6 +4,7 @@ package main
 // input = (stress NAPPS NSENDS PERSIST SEED) ; observed = (obs (final SND QLEN) (trace EV ...))
 
 import (
+	"github.com/quickfixgo/quickfix"
 	"sync"
 
 	. "qfverif/hx"
@@ -19,12 +20,13 @@ func runStress(in Sx) Sx {
 		wg.Add(1)
 		go func(a int) {
 			defer wg.Done()
+			var mine *quickfix.Message // one Message object per application goroutine, re-filled for every send
 			for i := 0; i < nsends; i++ {
 				k := "app"
 				if (i+a)%7 == 3 {
 					k = "apprej"
 				}
-				r.doOp(L(Sym("q"), Sym(k)))
+				r.doOpOwn(L(Sym("q"), Sym(k)), &mine)
 			}
 		}(a)
 	}
